@@ -281,8 +281,6 @@ def main():
             if s not in seen:
                 seen.add(s)
                 corpus.append((n, s))
-    else:
-        gen = [g for i, g in enumerate(gen) if i % 3 == rep.seed % 3]
     max_types = 14 if tier == "quick" else 28
     jobs = [(n, s, max_types, rep.seed) for n, s in gen + corpus]
     rights = rec_right_types()
